@@ -8,7 +8,24 @@ import concurrent.futures, json, os, sys
 sys.path.insert(0, os.path.join(os.path.dirname(os.path.abspath(__file__)), "..", "lib"))
 import vf
 
-OPN = {1: "register", 2: "login", 3: "check-passwd", 4: "change-passwd", 5: "change-email", 6: "exists", 7: "get-user", 8: "hour", 9: "reload-index"}
+OPN = {1: "register", 2: "login", 3: "check-passwd", 4: "change-passwd", 5: "change-email", 6: "exists", 7: "get-user", 8: "hour", 9: "reload-index",
+       10: "login-from-address", 11: "register-from-address", 12: "clock-stepped-back"}
+OLD_CODES = (1, 7)        # last-login age codes of accounts the clean-up removes (c03Age / Model age_of); 2, 3, 4 = stamp later than the clock
+
+
+def norm(code, a):
+    """the operation as the account table sees it: the client address decides nothing, a step back of the clock changes nothing"""
+    if code == 10:
+        return 2, a[:2]
+    if code == 11:
+        return 1, a[:3]
+    if code == 12:
+        return 9, []
+    return code, a
+
+
+def show(a):
+    return [x.decode("latin-1") if isinstance(x, bytes) else x for x in a]
 
 
 def enc(strs):
@@ -53,7 +70,7 @@ class Ref:
         for k in range(nslots):
             if 4 * k + 3 < len(init) and init[4 * k]:
                 i, pw, em, fl = init[4 * k:4 * k + 4]
-                self.slots[k] = {"id": i, "kb": genkb(pw), "email": em, "old": bool(fl[0]), "xempt": bool(fl[1])}
+                self.slots[k] = {"id": i, "kb": genkb(pw), "email": em, "old": fl[0] in OLD_CODES, "xempt": bool(fl[1])}
 
     def reindex(self):
         """case-folded id -> first slot holding it (rebuilt whenever a slot is given or taken away)"""
@@ -249,6 +266,10 @@ def main():
     dk = vf.run_impl(impl_docker, "C03", ["8"])[0].split()
     DOCKER_MAX_USERS, PRE = int(dk[1]), int(dk[2])
 
+    ek = vf.run_impl(impl, "C03", ["7"])[0].split()
+    USHM, KEEP_DAYS, CLEAN_RANGE, REGGED_BITS = int(ek[1]), int(ek[2]), int(ek[3]), int(ek[4])
+    if (KEEP_DAYS, REGGED_BITS) != (15, 0):
+        c.violation("harness-constants", "KEEP_DAYS_UNREGGED=%d, PERM_DEFAULT&(LOGINOK|VIOLATELAW)=%d: Model/C03.v KEEP_MIN_UNREGGED assumes 15 days for the accounts of the harness" % (KEEP_DAYS, REGGED_BITS), {"cases": ["7"]})
     envl = vf.run_impl(impl, "C03", ["9"])[0].split()
     nslots, idlen, emailsz = int(envl[1]), int(envl[2]), int(envl[3])
     t, reserved = envl[4:], []
@@ -294,10 +315,21 @@ def main():
             slots[0], slots[1] = slots[1], slots[0]           # guest in slot 1, SYSOP elsewhere (and old: reclaimable)
         init = []
         for (i, pw, em, old, xe) in slots:
-            init += [i, pw, em, bytes([1 if old else 0, 1 if xe else 0])]
+            # last login: long ago (1), just past the limit (7) / now (0), LATER than the clock reads (2: 5 s, 3: an hour, 4: 400 days), inside the keep period (5), a bit before the limit (6)
+            age = rng.choice([1, 1, 7]) if old else (rng.choice([0, 0, 0, 2, 3, 4, 5, 6]) if i else 0)
+            init += [i, pw, em, bytes([age, 1 if xe else 0])]
         known = {i: pw for (i, pw, em, old, xe) in slots if i}
         throttle = rng.random() < 0.25
         ops = gen_ops(shape, known, pws, bad, names_new, [i for i in known])
+        if shape in ("full", "full-old", "tight") and layer == 0:
+            # the clock is stepped back after accounts were used (their stamps are then later than the clock), an hour passes, the table is full
+            total = 0
+            for _ in range(rng.randint(0, 3)):
+                d = rng.choice([1, 5, 60, 3600, 20000])
+                if total + d <= 86400:
+                    total += d
+                    at = rng.randint(0, len(ops))
+                    ops[at:at] = [(12, [d])] + ([(8, [])] if rng.random() < 0.6 else [])
         idpool = sorted(set(names_new + TWIN[:4] + [b"SYSOP", b"guest", b"test1", b"old00", b"old01", b"OLD02", b"xempt1"] + [b for b in bad if b][:4]))
         return {"layer": layer, "throttle": throttle, "pwpool": PW, "idpool": idpool, "init": init, "ops": ops, "shape": shape}
 
@@ -348,13 +380,46 @@ def main():
                 ops.append((8, []))
         return ops
 
+    def make_address_history():
+        """MANY logins in one shared-memory lifetime: a handful of accounts, every login / registration from another client address"""
+        h = make_history(0, "roomy")
+        known = {h["init"][4 * k]: h["init"][4 * k + 1] for k in range(len(h["init"]) // 4) if h["init"][4 * k]}
+        who = [b"test1", b"Kahou2", b"SYSOP", b"guest"][:rng.randint(1, 4)]
+        rng.shuffle(who)
+        fresh = list(NEW)
+        rng.shuffle(fresh)
+        ops, nadr = [], 0
+        def adr():
+            nonlocal nadr
+            nadr += 1
+            return b"10.%d.%d.%d" % (rng.randint(0, 250), nadr // 200, 1 + nadr % 200)
+        for _ in range(rng.randint(USHM + 12, USHM + 30)):
+            r = rng.random()
+            if r < 0.72:
+                n = rng.choice(who)
+                ops.append((10, [rng.choice([n, n, n.swapcase()]), known[n] if rng.random() < 0.9 else rng.choice(PW), adr()]))
+            elif r < 0.8 and fresh and len(who) < 9:
+                n = fresh.pop()
+                pw = rng.choice([b"123123", b"abcdefgh", b"pass"])
+                ops.append((11, [n, pw, rng.choice(EM), adr()]))
+                known[n] = pw; who.append(n)
+            elif r < 0.86:
+                n = rng.choice(who)
+                new = rng.choice([b"123123", b"abcdefgh", b"pass", b"password"])
+                ops.append((4, [n, known[n], new])); known[n] = new if n != b"guest" else known[n]
+            elif r < 0.93:
+                ops.append((rng.choice([2, 3]), [rng.choice(who), rng.choice(PW)]))
+            else:
+                ops.append((6, [rng.choice(who + TWIN)]))
+        return dict(h, ops=ops, shape="many-addresses", throttle=False)
+
     def line_of(h):
         if "n" in h:
             return "2|%d %d|%s|%s|%s|%s|%s|%s" % (h["layer"], 1 if h["throttle"] else 0, enc(h["pwpool"]), enc(h["idpool"]), enc(reserved),
                                                  " ".join(str(x) for x in [h["n"]] + h["pos"]), enc(h["sparse"]),
                                                  "|".join(("%d %s" % (code, enc(a))).strip() for code, a in h["ops"]))
         return "1|%d %d|%s|%s|%s|%s|%s" % (h["layer"], 1 if h["throttle"] else 0, enc(h["pwpool"]), enc(h["idpool"]), enc(reserved), enc(h["init"]),
-                                           "|".join(("%d %s" % (code, enc(a))).strip() for code, a in h["ops"]))
+                                           "|".join(("12 %d" % a[0]) if code == 12 else ("%d %s" % (code, enc(a))).strip() for code, a in h["ops"]))
 
     # ---- ids with bytes >= 0x80 (Big5 / Latin-1 text typed into the id field): every high byte value at every position of an
     # otherwise well-formed id, and ids with several of them. None is a user id: each request naming one must be refused and
@@ -455,6 +520,9 @@ def main():
     nh = 4000 if thorough else 400
     for k in range(nh):
         hs.append(make_history(1 if k % 5 == 4 else 0, rng.choice(["roomy", "roomy", "tight", "tight", "full", "full-old", "full-old"])))
+    nadr = 60 if thorough else 8
+    for k in range(nadr):
+        hs.append(make_address_history())
     hb = high_byte_ids()
     c.cov["exhaustive_parts"].append("every byte value 0x80..0xFF at every position of an otherwise well-formed id of length %s: register + one other request each (%d ids, %d more with several such bytes)"
                                      % ("2..12" if thorough else "2, 5, 12", 128 * sum(range(2, 13) if thorough else (2, 5, 12)), len(hb) - 128 * sum(range(2, 13) if thorough else (2, 5, 12))))
@@ -509,11 +577,17 @@ def main():
     bigcov = {"accounts behind more than PRE_ALLOCATED_USERS free records": 0, "requests naming such an account": 0, "index rebuilt on the running server": 0,
               "largest number of free records in front of an account": 0, "observations with records left out of the index": 0}
 
+    cov_adr = {"largest number of logins / registrations in one shared-memory lifetime": 0, "largest number of distinct (account, client address) pairs logged in within one history": 0,
+               "largest number of distinct accounts logged in within one history": 0}
+    cov_clock = {"steps back of the clock": 0, "registrations on a full table after the clock was stepped back: accepted": 0, "registrations on a full table after the clock was stepped back: refused": 0,
+                 "initial accounts whose last-login stamp is later than the clock": sum(1 for h in hs for k in range(len(h["init"]) // 4) if h["init"][4 * k] and h["init"][4 * k + 3][0] in (2, 3, 4))}
+
     def judge(h, steps, ns):
         """the direct predicates, step by step; steps = [(status, payload, table, lookups, disagreeing, missing, extra)]"""
         nonlocal nops
         big = "n" in h
         ref = Ref(h["init"], ns, reserved, h["throttle"], idlen, emailsz, h["layer"])
+        online, adrs, stepped, seen = set(), set(), [False], [0]
         for si, ((code, a), (status, payload, table, look, dis, miss, extra)) in enumerate(zip([(0, [])] * (1 if big else 0) + h["ops"], steps)):
             loadstep = big and si == 0
             sn = si if big else si + 1
@@ -523,7 +597,7 @@ def main():
             else:
                 nops += 1
                 opmix[name] = opmix.get(name, 0) + 1
-            where = "%s %s%s of a %s history (layer %d%s)" % ("after" if loadstep else "step %d" % sn, "the index was built from .PASSWDS" if loadstep else name, "" if loadstep else [x.decode("latin-1") for x in a], h["shape"], h["layer"],
+            where = "%s %s%s of a %s history (layer %d%s)" % ("after" if loadstep else "step %d" % sn, "the index was built from .PASSWDS" if loadstep else name, "" if loadstep else show(a), h["shape"], h["layer"],
                                                           ", -tags docker, %d records, %d free ones in front of the last account" % (h["n"], h["free_before_last"]) if big else "")
             rep = {"cases": [line_of(dict(h, ops=h["ops"][:sn]))], "got": " ".join(status), "step": sn}
             if big:
@@ -532,6 +606,8 @@ def main():
                 c.violation("%s-crash" % name, "%s: the server %s" % (where, "panicked" if status[0] == "1" else "did not answer"), rep)
                 break
             if not loadstep:
+                addressed = code in (10, 11)
+                code, a = norm(code, a)
                 ok_exp, pay_exp = ref.expect(code, a)
                 ok_got = status[0] == "0"
                 classes[(name, ok_got)] = classes.get((name, ok_got), 0) + 1
@@ -540,7 +616,12 @@ def main():
                 if code == 9:
                     bigcov["index rebuilt on the running server"] += 1
                 if ok_got != ok_exp:
-                    if code == 1 and not ok_got and not any(x is None for x in ref.slots):
+                    if addressed and not ok_got and status == ("3", "7"):
+                        seen[0] = max(seen[0], sum(1 for (cc, aa) in h["ops"][:sn] if cc in (10, 11)))
+                        key = "%s-no-online-entry" % name
+                        desc = ("%s: refused with 'unable to get new utmp' although only %d accounts have logged in since the shared memory was set up (the on-line table has %d entries, one per account): "
+                                "%d logins / registrations from pairwise different client addresses came before" % (where, len(online), USHM, sum(1 for (cc, aa) in h["ops"][:sn - 1] if cc in (10, 11))))
+                    elif code == 1 and not ok_got and not any(x is None for x in ref.slots):
                         key = "register-full-table-expired-accounts"
                         desc = "%s: refused (%s) although %d expired accounts could be reclaimed; afterwards uids %s are empty in .PASSWDS but still in the index" % (where, " ".join(status), len(ref.reclaimable()), dis[:8])
                     else:
@@ -559,6 +640,18 @@ def main():
                 if ok_got and pay_exp is not None and payload != pay_exp:
                     c.violation("%s-answer" % name, "%s: answered %r, expected %r" % (where, payload, pay_exp), dict(rep, expected=repr(pay_exp)))
                     break
+                if ok_got and code in (1, 2):
+                    online.add(low(cstr(a[0], idlen + 1)))
+                    cov_adr["largest number of logins / registrations in one shared-memory lifetime"] = max(cov_adr["largest number of logins / registrations in one shared-memory lifetime"], sum(1 for (cc, aa) in h["ops"][:sn] if cc in (1, 2, 10, 11)))
+                    if addressed:
+                        adrs.add((low(cstr(a[0], idlen + 1)), h["ops"][sn - 1][1][-1]))
+                        cov_adr["largest number of distinct (account, client address) pairs logged in within one history"] = max(cov_adr["largest number of distinct (account, client address) pairs logged in within one history"], len(adrs))
+                    cov_adr["largest number of distinct accounts logged in within one history"] = max(cov_adr["largest number of distinct accounts logged in within one history"], len(online))
+                if name == "clock-stepped-back":
+                    cov_clock["steps back of the clock"] += 1
+                    stepped[0] = True
+                if stepped[0] and code == 1 and not any(x is None for x in ref.slots) and id_ok(a[0], idlen):
+                    cov_clock["registrations on a full table after the clock was stepped back: %s" % ("accepted" if ok_got else "refused")] += 1
                 allowed = ref.apply(code, a, ok_got, table)
             else:
                 ok_got, allowed = True, set()
@@ -616,22 +709,29 @@ def main():
     c.cov["operations"] = nops
     c.cov["distribution"].update({"op:" + k: v for k, v in sorted(opmix.items())})
     c.cov["result_classes"] = {"%s:%s" % (k[0], "accepted" if k[1] else "refused"): v for k, v in sorted(classes.items())}
-    c.cov["distribution"].update({"shape:" + s: sum(1 for h in hs if h["shape"] == s) for s in ("roomy", "tight", "full", "full-old")})
+    c.cov["distribution"].update({"shape:" + s: sum(1 for h in hs if h["shape"] == s) for s in ("roomy", "tight", "full", "full-old", "many-addresses")})
     c.cov["zero_hash_accounts"] = lock
+    c.cov["online_table"] = dict(cov_adr, USHM_SIZE=USHM)
+    c.cov["clock"] = cov_clock
     c.cov["distribution"]["through api handlers"] = sum(1 for h in hs if h["layer"] == 1)
-    c.sample({"history": [(OPN[code], [x.decode("latin-1") for x in a]) for code, a in hs[0]["ops"][:6]], "shape": hs[0]["shape"], "observed_results": [" ".join(s[0]) for s in (parse_steps(io[0], nslots, len(hs[0]["idpool"])) or [])[:6]]})
-    c.sample({"history": [(OPN[code], [x.decode("latin-1") for x in a]) for code, a in hs[5]["ops"][:8]], "shape": hs[5]["shape"], "layer": hs[5]["layer"],
+    c.sample({"history": [(OPN[code], show(a)) for code, a in hs[0]["ops"][:6]], "shape": hs[0]["shape"], "observed_results": [" ".join(s[0]) for s in (parse_steps(io[0], nslots, len(hs[0]["idpool"])) or [])[:6]]})
+    c.sample({"history": [(OPN[code], show(a)) for code, a in hs[5]["ops"][:8]], "shape": hs[5]["shape"], "layer": hs[5]["layer"],
               "observed_results": [" ".join(s[0]) for s in (parse_steps(io[5], nslots, len(hs[5]["idpool"])) or [])[:8]]})
     c.finish(rule="PRNG(seed)-generated histories of 15-40 operations over an id pool (valid, too short/long, leading digit, symbols, NUL inside, non-ASCII, case twins, new/guest, the reserved ids of the fixture) "
                   "and a password pool (shared 8-byte prefixes, bit-7 twins, NUL inside, NUL first, zero length, key block zero) on %d-slot tables that are roomy / tight / full / full with expired accounts; one history in five through the gin handlers; "
+                  "initial accounts with last-login stamps later than the clock and near the expiry limit, steps back of the clock (1 s .. 20000 s) inside tight / full histories; "
+                  "plus 'many-addresses' histories of USHM_SIZE+12 .. USHM_SIZE+30 operations in one shared-memory lifetime in which every login / registration comes from a client address not used before; "
                   "plus, complete for its domain, every byte value 0x80..0xFF at every position of otherwise well-formed ids (register + one other request each, see exhaustive_parts); "
                   "plus histories of the same kind on the production build (-tags docker, MAX_USERS=%d) over files of a few thousand records in which accounts sit behind PRE_ALLOCATED_USERS-1 / exactly / +1 / +2 / +9 / +120 / +600 free records, are sprinkled over such a file, "
                   "or (control) the file has at most PRE_ALLOCATED_USERS free records, with requests for those accounts in every letter case, re-registration of their ids and rebuilds of the index on the running server; "
                   "a history is distinct by (shape, layer, table, operation list); each operation is one evaluation of the predicates" % (nslots, DOCKER_MAX_USERS),
              assumptions=["passwords are compared through their DES key block (first 8 bytes up to NUL, low 7 bits): crypt(3) sees nothing else (C02); that two different key blocks never verify each other's hash is C02's cryptographic assumption",
-                          "fewer than USHM_SIZE (31) distinct users are logged in during one history; home/<c>/ parents exist",
+                          "fewer than USHM_SIZE (31) distinct ACCOUNTS log in during one shared-memory lifetime (= one history); the number of logins and of client addresses is not limited (many-addresses histories: more than USHM_SIZE logins, each from a new address); "
+                          "that one entry per account suffices is a theorem about the model's on-line table (C03_utmp_never_full), that the server's table behaves like it is validated by these histories, on the default build only (the 524 entries of the production build are not filled); home/<c>/ parents exist",
                           "'the account's current password' is read as: the password last given to Register/ChangePasswd when it is non-empty as a C string; for a zero-length or NUL-leading one cmbbs.GenPasswd stores the all-zero hash (repaired under C02: it used to panic on zero length) and, as in pttbbs, nothing verifies against it - such an account exists, keeps its id taken, and cannot log in or change its password (counted under coverage.zero_hash_accounts)",
-                          "operations are sequential (concurrent registrations are C15's subject); the clock enters only through the .fresh throttle and the last-login age of the initial accounts",
+                          "operations are sequential (concurrent registrations are C15's subject); the clock enters through the .fresh throttle and now - LastLogin of each account; "
+                          "the process cannot move the real clock: initial accounts get stamps on either side of it (5 s / 1 h / 400 days later; now; 14 days, limit -2 days, limit +2 days, 5 years earlier) and 'the clock is stepped back by d' moves every LastLogin of .PASSWDS and the mtime of .fresh ahead by d, "
+                          "which is the same to code that only forms now - stamp. Theorem: the model's expiry rule for ages of either sign (C03_expired_exact, C03_stamp_ahead_never_expires, C03_clock_back_keeps_unexpired); validated: that the server computes that rule (accounts are PERM_DEFAULT: KEEP_DAYS_UNREGGED; differences beyond the int32 range of Time4 are not generated)",
                           "production build: .PASSWDS is as long as its records (up to about 2600 of the 2 000 000; fillUHash reads to the end of the file) - a 1 GB file is not written; fewer registrations per history than free records in the index, "
                           "so the clean-up of a full 2 000 000-slot table (tryCleanUser) is not exercised on that build; the free records are all-zero records (no garbage ids)"])
 
